@@ -48,8 +48,9 @@ class Number(Element):
     ):
         super().__init__(*args, **kwargs)
         self.format = format
-        self.min = min
-        self.max = max
+        # defNumber requires min and max; equal bounds mean "no limit" in INDI
+        self.min = 0 if min is None else min
+        self.max = 0 if max is None else max
         self.step = step
 
 
